@@ -5,11 +5,12 @@
     - SELECT      selection.HandleSelect: "* n EXISTS", LastMessageCount = n
     - NOOP        extension.HandleNoop: count > Last => "* count EXISTS";
                   count < Last => "* i EXPUNGE" for i = Last .. count+1; Last = count
-    - CHECK       message.HandleCheck: Last = count, nothing is sent
+    - CHECK       message.HandleCheck: nothing is sent, Last untouched
     - EXPUNGE     message.HandleExpunge: notices, Last -= len(deleted), clamped at 0
                   (no change when nothing is deleted)
     - UID EXPUNGE uid.handleUIDExpunge: same
-    - STORE with the Junk auto-move: notices, Last untouched
+    - STORE with the Junk auto-move: per moved message "* rank EXPUNGE" and
+                  Last-- (not below 0)
     - CLOSE / UNSELECT end the observation (Last = 0, nothing selected)
 
     Between two commands of the observing session the rows of the mailbox may
@@ -41,18 +42,22 @@ Definition last_after_expunge (last : Z) (notices : list Z) : Z :=
   | _ => let l := last - Z.of_nat (length notices) in if l <? 0 then 0 else l
   end.
 
+(** per notice sent by the Junk auto-move: if state.LastMessageCount > 0 { state.LastMessageCount-- } *)
+Definition dec_each (last : Z) (notices : list Z) : Z :=
+  fold_left (fun l _ => if 0 <? l then l - 1 else l) notices last.
+
 Definition sess_step (c : scmd) (rows : list msg) (last : Z) : list note * list msg * Z :=
   let n := count_of rows in
   match c with
   | CSelect => ([NExists n], rows, n)
   | CNoop => (noop_notes last n, rows, n)
-  | CCheck => ([], rows, n)
+  | CCheck => ([], rows, last)
   | CExpunge =>
     let '(ns, rows') := handle_expunge rows in (map NExpunge ns, rows', last_after_expunge last ns)
   | CUidExpunge s =>
     let '(ns, rows') := handle_uid_expunge s rows in (map NExpunge ns, rows', last_after_expunge last ns)
   | CJunk s =>
-    let '(ns, _, rows') := handle_store_junk s rows in (map NExpunge ns, rows', last)
+    let '(ns, _, rows') := handle_store_junk s rows in (map NExpunge ns, rows', dec_each last ns)
   | COther => ([], rows, last)
   end.
 
